@@ -20,6 +20,9 @@
                                  enumeration values in range and NO perturbation type RELATIVE left (variables_wf, gradient_wf,
                                  linear_wf, nonlinear_wf)
      same_but_weights c c'       c' is c except that its weights are == (equal rationals) instead of identical terms
+     revalidate_n E n c          n hand-offs in a row: validate E None None (dump .) iterated n times
+     respelled raw raw'          raw' spells the dictionary raw differently: each broadcastable array as in raw or written out
+     spell_out raw               raw with every scalar / one-element list written out to full length
      final_immutable cls         every path through the class's validators ends with the immutable flag set
      store_immutable s           every expression that can reach the array store s yields a read-only array *)
 From Coq Require Import String.
@@ -202,6 +205,33 @@ Theorem C18_magnitudes_not_rescaled : forall E ctx nls raw c c', enums_wf E ->
   v_lower (c_vars c') = v_lower (c_vars c) /\ v_upper (c_vars c') = v_upper (c_vars c).
 Proof. exact revalidation_keeps_magnitudes. Qed.
 
+(* any number of dump -> validate hand-offs (revalidate_n E n = validate E None None o dump, n times): every one succeeds and the
+   result is still the first configuration up to == on the weights (same_but_weights: every other field is the same term) *)
+Theorem C18_stable_under_repeated_revalidation : forall E ctx nls raw c n, enums_wf E -> validate E ctx nls raw = Ok c ->
+  exists c', revalidate_n E n c = Ok c' /\ same_but_weights c c' /\ equiv c c' = true /\ canonical E c'.
+Proof. intros E ctx nls raw c n. apply validate_stable_n. Qed.
+
+(* "equivalent" (same_but_weights) is an equivalence relation, so the re-validated forms are also equivalent to each other *)
+Theorem C18_equivalence_relation :
+  (forall c, same_but_weights c c) /\ (forall a b, same_but_weights a b -> same_but_weights b a) /\
+  (forall a b c, same_but_weights a b -> same_but_weights b c -> same_but_weights a c).
+Proof. split; [exact same_but_weights_refl | split; [exact same_but_weights_sym | exact same_but_weights_trans]]. Qed.
+
+(* ---- canonical whatever the spelling ------------------------------------------------------------------------------------ *)
+(* respelled raw raw': raw' is raw with any of its broadcastable arrays (variable bounds, types, mask, magnitudes, perturbation
+   and boundary types, linear / non-linear constraint bounds) written either as in raw or with a scalar / one-element list
+   written out to full length (spelled n l l' := l' = l \/ l' = expand n l).  Both spellings have the same outcome -- the same
+   configuration, or the same rejection.  (With no variables an out-of-range enumeration scalar is rejected while its
+   written-out form, the empty list, is not: hence V <> 0.) *)
+Theorem C18_spelling_irrelevant : forall E ctx nls raw raw', length (v_initial (c_vars raw)) <> 0%nat ->
+  respelled raw raw' -> validate E ctx nls raw' = validate E ctx nls raw.
+Proof. exact validate_respelled. Qed.
+
+(* in particular the dictionary with every scalar written out (spell_out) *)
+Theorem C18_scalars_written_out : forall E ctx nls raw, length (v_initial (c_vars raw)) <> 0%nat ->
+  respelled raw (spell_out raw) /\ validate E ctx nls (spell_out raw) = validate E ctx nls raw.
+Proof. intros E ctx nls raw Hn. split; [apply spell_out_respelled | apply validate_spell_out; exact Hn]. Qed.
+
 (* ---- frozen: the flag discipline (what is proved of frozenness; the objects themselves are probed at run time) ------- *)
 (* every configuration class of the table generated from the current source ends its validators immutable *)
 Theorem C18_flags_final_immutable : forall c, In c config_classes -> final_immutable c = true.
@@ -263,6 +293,27 @@ Proof.
   eexists. split; [vm_compute; reflexivity|]. split; vm_compute; reflexivity.
 Qed.
 
+(* the same dictionary with its scalars written out is a different term, validates to the same accepted configuration, and
+   three hand-offs in a row return an equivalent configuration with the very same magnitudes *)
+Example C18_example_spelling :
+  let raw := {| c_vars := {| v_initial := [1; 2; 3]; v_lower := [Fin 0]; v_upper := [Fin 4; Fin 8; PInf];
+                             v_types := Some [1%Z]; v_mask := Some [true; false; true] |};
+                c_obj_w := [1; 3]; c_real_w := [2; 0; 2]; c_rmin := Some 7%nat;
+                c_grad := {| g_P := 5; g_pmin := None; g_mags := [1 # 4]; g_ptypes := [2%Z; 1%Z; 1%Z]; g_btypes := [3%Z] |};
+                c_lin := Some {| l_coeffs := [[1; 0; 2]; [0; 1; 0]]; l_lower := [NInf]; l_upper := [Fin 6] |};
+                c_nonlin := Some {| n_lower := [Fin 0]; n_upper := [Fin 1; PInf] |} |} in
+  let ctx := Some {| s_scales := Some [1; 2; 4]; s_offsets := Some [0; 1; 0] |} in
+  v_lower (c_vars (spell_out raw)) = [Fin 0; Fin 0; Fin 0] /\ g_btypes (c_grad (spell_out raw)) = [3%Z; 3%Z; 3%Z] /\
+  option_map l_lower (c_lin (spell_out raw)) = Some [NInf; NInf] /\
+  option_map n_lower (c_nonlin (spell_out raw)) = Some [Fin 0; Fin 0] /\
+  exists c, validate gen_enums ctx (Some [2; 4]) raw = Ok c /\ validate gen_enums ctx (Some [2; 4]) (spell_out raw) = Ok c /\
+            exists c', revalidate_n gen_enums 3 c = Ok c' /\ equiv c c' = true /\ g_mags (c_grad c') = g_mags (c_grad c).
+Proof.
+  cbv zeta. repeat (split; [vm_compute; reflexivity|]).
+  eexists. split; [vm_compute; reflexivity|]. split; [vm_compute; reflexivity|].
+  eexists. split; [vm_compute; reflexivity|]. split; vm_compute; reflexivity.
+Qed.
+
 Print Assumptions C18_weights_canonical.
 Print Assumptions C18_weights_rejected.
 Print Assumptions C18_nonpositive_weights_rejected.
@@ -287,6 +338,10 @@ Print Assumptions C18_canonical_fixed_point.
 Print Assumptions C18_idempotent.
 Print Assumptions C18_idempotent_generated.
 Print Assumptions C18_magnitudes_not_rescaled.
+Print Assumptions C18_stable_under_repeated_revalidation.
+Print Assumptions C18_equivalence_relation.
+Print Assumptions C18_spelling_irrelevant.
+Print Assumptions C18_scalars_written_out.
 Print Assumptions C18_flags_final_immutable.
 Print Assumptions C18_arrays_stored_immutable.
 Print Assumptions C18_array_types_converted.
